@@ -8,7 +8,7 @@
     [wf_pair]: tables are consistent (one kind per name: unique [IndexMap] keys; an interface listed both
     explicitly and through [use] is the same interface). *)
 From WacV Require Import Str Ord Semver Names NamesSpec Types SubSpec Targets TargetsSpec.
-From WacV Require Import TargetsProofs.
+From WacV Require Import TargetsProofs TargetsChecker TargetsCheckerProofs Checker CheckerTheorems.
 
 (** 1. The resolution-time verdict is the declarative conformance WITH EXACT NAMES, and each diagnostic
        is raised exactly when its failure class is the first failure in the order "imports of the
@@ -110,8 +110,10 @@ Print Assumptions verdicts_agree_after_repair.
        are not affected by [promote] (no type-level func/interface/world items: WIT worlds have none),
        the resolution-time verdict is Ok iff the component type (imports, exports) of the composition is
        a [SubCM]-subtype of the component type (imports incl. used interfaces, exports) of the world.
-       Missing for the full statement: that the encoded output has exactly this component type (C03),
-       and the oracle hypothesis on the real checker (C07). *)
+       Missing for the full statement: that the encoded output has exactly this component type (C03).
+       The oracle hypothesis and the promote-stability hypothesis are REMOVED in 4b below
+       ([target_iff_cm_subtype], [target_iff_cm_subtype_exact_names]); this oracle form is kept because it
+       holds for any decision procedure of [SubCM] and for the unrepaired exact-name check. *)
 Theorem target_iff_cm_subtype_partial :
   forall (sub : tree -> tree -> bool), (forall a b, sub a b = true <-> SubCM a b) ->
   forall (w : tworld tree) (c : comp tree), promote_stable w ->
@@ -119,7 +121,95 @@ Theorem target_iff_cm_subtype_partial :
 Proof. exact target_iff_cm_subtype. Qed.
 Print Assumptions target_iff_cm_subtype_partial.
 
-(** 5. The executable specification printed by the driver decides the declarative conformance. *)
+(** 4b. The same WITHOUT an oracle: kinds are [Types.kind] of one collection [t], [promote] is
+        [ItemKind::promote] ([kind_promote]), the subtype test is the checker model of property C07
+        ([chk F t a b] = one check on a fresh checker), and the world/composition are denoted by their trees
+        ([den] = [unfold]).  For resource-free pairs the repaired (semver-aware) resolution verdict is Ok exactly
+        when the composition's component type is a component-model subtype of the world's with names matched
+        up to the semver discipline ([TargetSub Semver]: every import of the composition is provided by the
+        consulted import of the world at a [SubCM]-subtype, every export of the world by the consulted export of
+        the composition; world items are [promote]d, so no promote-stability hypothesis is left).
+        Remaining hypotheses, all about the inputs: [wf_types t r] (well-formed acyclic collection, C07),
+        [pages_ok t] (C07's scope for completeness: the known "memory-default-page-size" finding), [wf_pair]
+        (one kind per name), [good_pair'] (no dangling identifier, fuel above the ranks: [fuel_suffices] shows
+        that such fuel exists), [resfree_pair] (the property's resource-free fragment). *)
+Theorem target_iff_cm_subtype :
+  forall t r F, wf_types t r -> forall (w : tworld kind) (c : comp kind),
+    pages_ok t -> wf_pair w c -> good_pair' t r F w c -> resfree_pair t F w c ->
+    (resolve_target_sv kind_promote (chk F t) w c = Some ROk <->
+     TargetSub Semver (comp_imports_tree t F c) (mapv (den t F) (c_exports c))
+                      (mapv (den t F) (wtable w)) (mapv (den t F) (tw_exports w))).
+Proof. exact target_iff_cm. Qed.
+Print Assumptions target_iff_cm_subtype.
+
+(** ... which, when no two distinct names of the pair share a semver track, is literally the component-model
+    rule [SubCM (component type of the composition) (component type of the world)]. *)
+Theorem target_iff_cm_subtype_exact_names :
+  forall t r F, wf_types t r -> forall (w : tworld kind) (c : comp kind),
+    pages_ok t -> wf_pair w c -> good_pair' t r F w c -> resfree_pair t F w c -> exact_names w c ->
+    (resolve_target_sv kind_promote (chk F t) w c = Some ROk <->
+     SubCM (XComp (comp_imports_tree t F c) (mapv (den t F) (c_exports c)))
+           (XComp (mapv tree_promote (mapv (den t F) (wtable w))) (mapv tree_promote (mapv (den t F) (tw_exports w))))).
+Proof. exact target_iff_SubCM_exact. Qed.
+Print Assumptions target_iff_cm_subtype_exact_names.
+
+Theorem fuel_suffices :
+  forall t r (w : tworld kind) (c : comp kind),
+    (forall n k, In (n, k) (wtable w ++ tw_exports w ++ c_exports c) -> kind_ok t k) ->
+    (forall i, In i (c_imports c) -> kind_ok t (ikind i)) ->
+    exists F0, forall F, (F0 <= F)%nat -> good_pair' t r F w c.
+Proof. exact good_pair_fuel. Qed.
+Print Assumptions fuel_suffices.
+
+(** 4c. Why one fresh check per query is the right oracle, and the panic sites.  [resolve_target_full] threads ONE
+        checker through both loops as the code does (memo shared, [invert] before the imports loop, [revert]
+        after it) and evaluates [state.import_spans[&n]] inside the error closures.  Under the resolver's
+        bookkeeping invariant at this abstraction ([spans_cover]: every explicit import node listed by
+        [CompositionGraph::imports()] has a span) it never panics -- neither at the span index sites, nor at
+        [revert], nor at the [unwrap]s, nor inside the checker, nor by lack of fuel -- and returns the verdict of
+        the abstract model run with the oracle [chk].  (That [spans_cover] holds needs the resolver model:
+        imports are created only by [import_statement], which inserts the span; ./check ties this to the
+        source text.) *)
+Theorem resolve_target_full_never_panics :
+  forall t r F, wf_types t r -> forall spans (w : tworld kind) (c : compn),
+    wf_pair w (erase c) -> good_pair t r F w c -> spans_cover spans c ->
+    exists v, resolve_target_sv kind_promote (chk F t) w (erase c) = Some v /\
+              resolve_target_full F t spans w c = OVerdict v.
+Proof. exact resolve_full_eq. Qed.
+Print Assumptions resolve_target_full_never_panics.
+
+(** 5. The executable specification printed by the driver: [conforms_b] decides the declarative conformance;
+       [spec_first] raises each diagnostic exactly when its failure class is first; the set printers
+       enumerate the three classes; and [spec_first] coincides with the models. *)
+Theorem spec_first_characterised :
+  forall K (promote : K -> K) (sub : K -> K -> bool) d (w : tworld K) (c : comp K), wf_pair w c ->
+    (spec_first promote sub d w c = ROk <-> Conforms promote sub d w c) /\
+    (forall n, spec_first promote sub d w c = RErr (ImportNotInTarget n) <-> diag_import_not_in_target promote sub d w c n) /\
+    (forall n, spec_first promote sub d w c = RErr (TargetMismatch EImport n) <-> diag_import_mismatch promote sub d w c n) /\
+    (forall n, spec_first promote sub d w c = RErr (MissingTargetExport n) <-> diag_missing_export promote sub d w c n) /\
+    (forall n, spec_first promote sub d w c = RErr (TargetMismatch EExport n) <-> diag_export_mismatch promote sub d w c n).
+Proof. exact spec_first_spec. Qed.
+Print Assumptions spec_first_characterised.
+
+Theorem spec_sets_characterised :
+  forall K (promote : K -> K) (sub : K -> K -> bool) d (w : tworld K) (c : comp K), wf_pair w c ->
+    (forall n, In n (spec_not_in_target promote sub d w c) <-> in_not_in_target d w c n) /\
+    (forall n, In n (spec_missing promote sub d w c) <-> in_missing d w c n) /\
+    (forall n, In n (spec_mismatched promote sub d w c) <-> in_mismatched promote sub d w c n).
+Proof. exact spec_sets_spec. Qed.
+Print Assumptions spec_sets_characterised.
+
+Theorem spec_first_is_the_model :
+  forall K (promote : K -> K) (sub : K -> K -> bool) (w : tworld K) (c : comp K), wf_pair w c ->
+    spec_first promote sub Exact w c = resolve_target promote sub w c /\
+    resolve_target_sv promote sub w c = Some (spec_first promote sub Semver w c).
+Proof.
+  intros K promote sub w c WF. split.
+  - exact (spec_first_exact_is_model K promote sub w c WF).
+  - exact (spec_first_semver_is_model K promote sub w c WF).
+Qed.
+Print Assumptions spec_first_is_the_model.
+
 Theorem conforms_b_decides :
   forall K (promote : K -> K) (sub : K -> K -> bool) d (w : tworld K) (c : comp K),
     conforms_b promote sub d w c = true <-> Conforms promote sub d w c.
@@ -149,3 +239,47 @@ Example targets_nonvacuous :
   standalone_target (fun k => k) N.eqb w_demo c_demo_bad = SReport (mkreport [] [] [(n_f, EExport)]) /\
   conforms_b (fun k => k) N.eqb Exact w_demo c_demo_bad = false.
 Proof. vm_compute. repeat split. Qed.
+
+(** Non-vacuity of the oracle-free statements: one collection with an interface {f}, a world importing it as
+    [x:y/z@0.2.1] and a composition importing [x:y/z@0.2.0] through an explicit import node that has a span.
+    All hypotheses hold; the threaded model answers Ok; without the span it is the span-index panic. *)
+Definition c11_t : types :=
+  mktypes 1 [] [] [mkfunc [] None false] [mkif None [] [([102], KFunc (mkid 1 0))]] [] [].
+Definition c11_rk : ranking := mkrank (fun _ => O) (fun _ => O) (fun _ => O) (fun _ => 1%nat) (fun _ => O).
+Definition c11_w : tworld kind := mktworld [] [(n_xyz_021, KType (TInterface (mkid 1 0)))] [].
+Definition c11_c : compn := mkcompn [(n_xyz_020, KInstance (mkid 1 0), Some 7%nat)] [].
+Definition c11_bad : compn := mkcompn [(n_f, KFunc (mkid 1 0), Some 7%nat)] [].
+Example c11_concrete_nonvacuous :
+  wf_types c11_t c11_rk /\ pages_ok c11_t /\ wf_pair c11_w (erase c11_c) /\
+  good_pair c11_t c11_rk 3 c11_w c11_c /\ good_pair' c11_t c11_rk 3 c11_w (erase c11_c) /\
+  resfree_pair c11_t 3 c11_w (erase c11_c) /\ spans_cover [7%nat] c11_c /\
+  resolve_target_full 3 c11_t [7%nat] c11_w c11_c = OVerdict ROk /\
+  resolve_target_full 3 c11_t [7%nat] c11_w c11_bad = OVerdict (RErr (ImportNotInTarget n_f)) /\
+  resolve_target_full 3 c11_t [] c11_w c11_bad = OPanic (PSpanIndex 7).
+Proof.
+  assert (Hnd : NoDup [[102]]) by (constructor; [intros [] | constructor]).
+  split; [|split; [|split; [|split; [|split; [|split; [|split; [|split; [|split]]]]]]]].
+  - split.
+    + intros [|i] d H; discriminate H.
+    + intros [|i] x H; discriminate H.
+    + intros [|[|i]] f H; try discriminate H. injection H as <-. split; [constructor | intros v []].
+    + intros [|[|i]] x H; try discriminate H; injection H as <-; (split; [assumption|]);
+        intros k Hin; cbn in Hin; repeat destruct Hin as [<-|Hin]; try destruct Hin; cbn; repeat split; auto.
+    + intros [|i] x H; discriminate H.
+    + intros [|i] x H; discriminate H.
+  - right. intros [|i] m H; discriminate H.
+  - split; cbn; [apply consistent_single | apply consistent_nil].
+  - split.
+    + intros n k [H|[]]. injection H as _ <-. split; [split; cbn; auto | cbn; auto].
+    + intros n k node [H|[]]. injection H as _ <- _. split; [split; cbn; auto | cbn; auto].
+  - split.
+    + intros n k [H|[]]. injection H as _ <-. split; [split; cbn; auto | cbn; auto].
+    + intros i [<-|[]]. split; [split; cbn; auto | cbn; auto].
+  - split.
+    + intros n k [H|[]]. injection H as _ <-. vm_compute. reflexivity.
+    + intros i [<-|[]]. vm_compute. reflexivity.
+  - intros n k node [H|[]]. injection H as _ _ <-. now left.
+  - vm_compute. reflexivity.
+  - vm_compute. reflexivity.
+  - vm_compute. reflexivity.
+Qed.
